@@ -4,6 +4,7 @@ package c09
 import (
 	"encoding/json"
 	"fmt"
+	"regexp"
 	"sort"
 	"strings"
 
@@ -364,6 +365,122 @@ func genMaps(maxPairs int, emit func(tcase)) {
 	rec(nil)
 }
 
+// ---------------------------------------------------------------- keys that differ in ways a shortcut could miss
+
+// Str keys that agree position by position in the low byte of every code point (a hash that truncates code
+// points merges them), and non-scalar keys that are == although built differently (a literal and its bear
+// child): every literal of <=3 pairs, as a map and (str keys) as an object.
+var ckeys = []mkey{
+	{`"C"`, `"C"`, "str:C", true}, {`"Ń"`, `"Ń"`, "str:Ń", true}, {`"H"`, `"H"`, "str:H", true}, {`"え"`, `"え"`, "str:え", true},
+	{`"CH"`, `"CH"`, "str:CH", true}, {`"ŃH"`, `"ŃH"`, "str:ŃH", true}, {`"Cえ"`, `"Cえ"`, "str:Cえ", true},
+	{"[1]", "", "arr:[1]", false}, {"[1].bear", "", "arr:[1]", false}, {"(1:5)", "", "range:1:5", false}, {"(1:5).bear", "", "range:1:5", false},
+	{"%{1: 2}", "", "map:{1:2}", false}, {"%{1: 2}.bear", "", "map:{1:2}", false},
+}
+
+func genCollide(emit func(tcase)) {
+	var rec func(ids []int)
+	rec = func(ids []int) {
+		if len(ids) > 0 {
+			pairs := make([][2]string, len(ids))
+			lit := make([]string, len(ids))
+			allStr := true
+			for i, id := range ids {
+				pairs[i] = [2]string{fmt.Sprint(id), fmt.Sprint(i + 1)}
+				lit[i] = ckeys[id].src + ": " + fmt.Sprint(i+1)
+				allStr = allStr && ckeys[id].scalar
+			}
+			emit(tcase{Kind: "cmap", Src: "%{" + strings.Join(lit, ", ") + "}", Pairs: pairs})
+			if allStr {
+				emit(tcase{Kind: "cobj", Src: "{" + strings.Join(lit, ", ") + "}", Pairs: pairs})
+			}
+		}
+		if len(ids) == 3 {
+			return
+		}
+		for id := range ckeys {
+			rec(append(append([]int{}, ids...), id))
+		}
+	}
+	rec(nil)
+}
+
+func collideBody(t tcase) string {
+	var sb strings.Builder
+	if t.Kind == "cobj" {
+		fmt.Fprintf(&sb, "m := %s\n[m.keys(private?: true).len, m.values(private?: true), m.keys(private?: true)", t.Src)
+	} else {
+		fmt.Fprintf(&sb, "m := %s\n[m.len, m.values, m.keys.len", t.Src)
+	}
+	for _, k := range ckeys {
+		if t.Kind == "cobj" && !k.scalar {
+			continue
+		}
+		fmt.Fprintf(&sb, ", m[%s]", k.src)
+	}
+	sb.WriteString("]")
+	return sb.String()
+}
+
+func collideExpect(t tcase) []string {
+	var ins []mpair
+	seen := map[string]bool{}
+	for _, p := range t.Pairs {
+		var i int
+		fmt.Sscanf(p[0], "%d", &i)
+		if !seen[ckeys[i].class] {
+			seen[ckeys[i].class] = true
+			ins = append(ins, mpair{ckeys[i], p[1]})
+		}
+	}
+	var ord []mpair
+	if t.Kind == "cobj" {
+		// public names (identifier-like) in sorted order, then the others in sorted order
+		ident := regexp.MustCompile(`^[a-zA-Z][a-zA-Z0-9_]*[!?]?$`)
+		for _, pub := range []bool{true, false} {
+			var part []mpair
+			for _, p := range ins {
+				if ident.MatchString(strings.Trim(p.k.src, `"`)) == pub {
+					part = append(part, p)
+				}
+			}
+			sort.Slice(part, func(a, b int) bool { return part[a].k.src < part[b].k.src })
+			ord = append(ord, part...)
+		}
+	} else {
+		for _, sc := range []bool{true, false} {
+			for _, p := range ins {
+				if p.k.scalar == sc {
+					ord = append(ord, p)
+				}
+			}
+		}
+	}
+	vs, ks := []string{}, []string{}
+	for _, p := range ord {
+		vs = append(vs, p.v)
+		ks = append(ks, p.k.repr)
+	}
+	exp := []string{fmt.Sprint(len(ord)), arr(vs)}
+	if t.Kind == "cobj" {
+		exp = append(exp, arr(ks))
+	} else {
+		exp = append(exp, fmt.Sprint(len(ord)))
+	}
+	for _, k := range ckeys {
+		if t.Kind == "cobj" && !k.scalar {
+			continue
+		}
+		v := "nil"
+		for _, p := range ord {
+			if p.k.class == k.class {
+				v = p.v
+			}
+		}
+		exp = append(exp, v)
+	}
+	return exp
+}
+
 // ---------------------------------------------------------------- sequences of literals sharing an embedded value
 
 // seqBody: the embedded containers are bound to variables, two literals unpack the same first container one
@@ -535,6 +652,20 @@ func judge(c *core.Ctx, t tcase, o panrun.Obs) {
 		judgeSeq(c, t, o)
 		return
 	}
+	if t.Kind == "cmap" || t.Kind == "cobj" {
+		names := []string{"len", "values", "keys"}
+		for i, e := range collideExpect(t) {
+			if got := a.Elems[i].Inspect(); got != e {
+				class := "index"
+				if i < len(names) {
+					class = names[i]
+				}
+				viol(class, fmt.Sprintf("element %d = %s", i, e), got)
+				return
+			}
+		}
+		return
+	}
 	if t.Kind == "objnames" {
 		for i, e := range objNamesExpect(t) {
 			if got := a.Elems[i].Inspect(); got != e {
@@ -627,7 +758,11 @@ func run(c *core.Ctx) {
 		genMaps(maxP, emit)
 		genSeqs(emit)
 		genObjNames(c.Pick(3, 4), emit)
+		genCollide(emit)
 	}, func(t tcase) string {
+		if t.Kind == "cmap" || t.Kind == "cobj" {
+			return collideBody(t)
+		}
 		if t.Kind == "objnames" {
 			return objNamesBody(t)
 		}
@@ -663,6 +798,9 @@ func replay(c *core.Ctx, raw json.RawMessage) {
 	}
 	if t.Kind == "objnames" {
 		body = objNamesBody(t)
+	}
+	if t.Kind == "cmap" || t.Kind == "cobj" {
+		body = collideBody(t)
 	}
 	obs := c.R().Thunks("", []string{body}, "")
 	c.Eval(1)
